@@ -13,6 +13,8 @@ from ..harness import Section, DISCHARGED, FAILED
 from ..pyvc.source import Program
 from ..rtc import c12_surface as drv
 
+from . import lexeme
+
 
 def ground_section():
     import pvl.grammar as G
@@ -90,8 +92,10 @@ def ground_section():
 
 
 def run(ctx):
-    return [ground_section()] + drv.sections(ctx)
+    return [ground_section()] + lexeme.sections_for("C12", ctx) + drv.sections(ctx)
 
 
 def replay(data):
+    if lexeme.is_encoder_record(data):
+        return lexeme.replay_encoder("C12", data)
     return drv.replay(data)
